@@ -593,7 +593,10 @@ theorem N_handleSubmoduleLog (cfg : Cfg) (m : M) (l : L) :
   unfold handleSubmoduleLog
   split
   · npush
-  · exact N_handleAdditionalCases cfg m l .submoduleLog rfl
+  · have hN : N (pendingDiffName cfg (flushMP (N m))) = N (pendingDiffName cfg (flushMP m)) := by
+      rw [N_pendingDiffName, N_pendingDiffName, N_flushMP, N_flushMP, N_N]
+    exact ((N_handleAdditionalCases cfg (pendingDiffName cfg (flushMP (N m))) l .submoduleLog rfl).symm.trans
+      (by rw [hN])).trans (N_handleAdditionalCases cfg (pendingDiffName cfg (flushMP m)) l .submoduleLog rfl)
 
 theorem submoduleShortTest_N (m : M) (l : L) : submoduleShortTest (N m) l = submoduleShortTest m l := by
   unfold submoduleShortTest
@@ -1422,7 +1425,7 @@ theorem P_handleSubmoduleLog (p : List Row) (cfg : Cfg) (m : M) (l : L) :
   unfold handleSubmoduleLog
   split
   · ppush
-  · exact P_handleAdditionalCases ..
+  · rw [P_handleAdditionalCases, P_pendingDiffName, P_flushMP]
 
 theorem P_handleSubmoduleShort (p : List Row) (cfg : Cfg) (m : M) (l : L) :
     PR p (handleSubmoduleShort cfg m l) = handleSubmoduleShort cfg (P p m) l := by
@@ -2241,7 +2244,8 @@ theorem idle_handleSubmoduleLog {cfg : Cfg} {m m' : M} {l : L} {b : Bool}
   unfold handleSubmoduleLog at e
   split at e
   · cases e; exact Idle.refl _
-  · exact idle_handleAdditionalCases e
+  · exact (Idle.of_eq (by simp) (by simp) : Idle m (pendingDiffName cfg (flushMP m))).trans
+      (idle_handleAdditionalCases e)
 
 theorem idle_handleSubmoduleShort {cfg : Cfg} {m m' : M} {l : L} {b : Bool}
     (e : handleSubmoduleShort cfg m l = .ok (b, m')) : Idle m m' := by
